@@ -419,6 +419,8 @@ class _OneDimensionalLikelihood(Likelihood, ABC):
     def log_marginal(
         self, observations: Tensor, function_dist: MultivariateNormal, *args: Any, **kwargs: Any
     ) -> Tensor:
-        prob_lambda = lambda function_samples: self.forward(function_samples).log_prob(observations).exp()
+        prob_lambda = lambda function_samples: self.forward(function_samples, *args, **kwargs).log_prob(
+            observations
+        ).exp()
         prob = self.quadrature(prob_lambda, function_dist)
         return prob.log()
